@@ -6,7 +6,14 @@ patch=$(realpath "$1"); shift
 wt=/tmp/mut-$$-$RANDOM
 git -C /repo worktree add -q --detach $wt HEAD || exit 3
 trap "git -C /repo worktree remove --force $wt" EXIT
-(cd $wt && (git apply "$patch" 2>/dev/null || git apply -3 "$patch")) || { echo "patch does not apply"; exit 3; }
+if ! (cd $wt && (git apply "$patch" 2>/dev/null || git apply -3 "$patch" >/dev/null 2>&1) && ! git diff --name-only --diff-filter=U | grep -q .); then
+  # a seed that only exists on an older tree names it in its meta.json (base_commit)
+  base=$(python3 -c "import json,sys,os; m=os.path.join(os.path.dirname(sys.argv[1]),'meta.json'); print(json.load(open(m)).get('base_commit','') if os.path.exists(m) else '')" "$patch")
+  [ -n "$base" ] || { echo "patch does not apply"; exit 3; }
+  git -C /repo worktree remove --force $wt; git -C /repo worktree add -q --detach $wt $base || exit 3
+  (cd $wt && git apply "$patch") || { echo "patch does not apply to its base commit $base"; exit 3; }
+  echo "(applied to base commit $base)"
+fi
 cd ${VERIF_DIR:-/verif}
 [ -x bin/verif ] || (export GOFLAGS=-mod=mod GOPROXY=off GOSUMDB=off GOTOOLCHAIN=local; go build -o bin/verif ./cmd/verif) || exit 3
 for c in "$@"; do
